@@ -81,13 +81,21 @@ pub fn check(c: &Case) -> CheckResult {
                     nontrivial = true;
                     classes.push("near-zero-seed".into());
                 }
-                // verbatim use
-                match adapter::observe_state(&*g) {
-                    Some(img) if img == s.bytes => {}
-                    Some(img) => {
+                // verbatim use: the generator is the published algorithm started from exactly the
+                // seed words (independent of how the state is represented or serialized) ...
+                let mut c2 = g.clone_box();
+                let mut model = crate::refmodel::stream::WordModel::from_seed_raw(ty, &s.bytes);
+                for k in 0..4 {
+                    let (got, want) = (c2.next_native(), model.next());
+                    if got != want {
+                        return Err(Fail::new(format!("C08:verbatim:{}", info.name), format!("a non-zero seed is not used verbatim: output #{} is not the reference output from the state whose words are the seed words", k)).exp_act(format!("{:#x}", want), format!("{:#x}", got)));
+                    }
+                }
+                // ... and, where the serde image is the plain state (validated), it is the seed
+                if let Some(img) = adapter::observe_state(&*g) {
+                    if img != s.bytes {
                         return Err(Fail::new(format!("C08:verbatim:{}", info.name), "a non-zero seed is not used verbatim as the state").exp_act(crate::hexser::hex(&s.bytes), crate::hexser::hex(&img)));
                     }
-                    None => return Err(Fail::inconclusive("C08:no-observation", "state image could not be validated")),
                 }
             }
             classes.push(format!("seed:{}", s.class));
